@@ -110,7 +110,7 @@ def run_tlc(module, cfg=None, env=None, workers=16, timeout=900, simulate=None, 
     cfg = cfg or (module + ".cfg")
     meta = tempfile.mkdtemp(prefix="verif-tlc-")
     res = TlcResult()
-    java = ["java", "-XX:+UseParallelGC"]
+    java = ["java", "-XX:+UseParallelGC", "-Xss128m"]
     if heap:
         java.append("-Xmx%s" % heap)
     if dfs:
@@ -223,7 +223,7 @@ def _parse_output(path, res):
 def sany(module, specdir=SPECS):
     p = subprocess.run(["java", "-cp", JAR, "tla2sany.SANY", module + ".tla"], cwd=specdir,
                        stdout=subprocess.PIPE, stderr=subprocess.STDOUT, universal_newlines=True)
-    ok = p.returncode == 0 and "Semantic errors" not in p.stdout and "Parse Error" not in p.stdout and "Fatal" not in p.stdout
+    ok = p.returncode == 0 and "conflicts with" not in p.stdout and "Semantic errors" not in p.stdout and "Parse Error" not in p.stdout and "Fatal" not in p.stdout
     return ok, p.stdout
 
 
